@@ -55,7 +55,7 @@ def build(repo, findings):
     u.add(f)
     u.raw('// a Rust string has at most isize::MAX bytes (std; ASSUMED)\npub axiom fn axiom_str_fits_usize(s: &str) ensures byte_len(s@) <= isize::MAX;\n')
     u.raw(FOOTER)
-    u.assume('external_body', 'R19 stubs str_len / str_is_char_boundary / str_slice_to carry std\'s panic conditions as preconditions; tokenize_input_for_completion is a stub whose contract (tokens are pieces of the line at character positions) is read off simple_tokenize_by_delimiters and NOT verified')
+    u.assume('external_body', 'R19 stubs str_len / str_is_char_boundary / str_slice_to carry std\'s panic conditions as preconditions; tokenize_input_for_completion is a stub whose contract (tokens are pieces of the line at character positions) is PROVED for simple_tokenize_by_delimiters, which it returns, in unit U24b')
     u.assume('axiom', 'a string has at most isize::MAX bytes')
     u.assume('stub', 'the rest of get_completions (completion generation) and the front-ends that consume insertion_index / delete_count (reedline completer to_suggestion, basic line reader) are NOT covered')
     u.expected_min_fns = 3
